@@ -42,7 +42,8 @@ def one_path(draw, mids_pool, base, scale):
 
 @st.composite
 def path_list(draw):
-    mids_pool = draw(st.sampled_from([['a', 'b', 'c'], ['a', 'b', 'c'], [-1, -2, 3], [0, -1, -2], [1, '1', 2], ['7', 7, 'a']]))
+    mids_pool = draw(st.sampled_from([['a', 'b', 'c'], ['a', 'b', 'c'], [-1, -2, 3], [0, -1, -2], [1, '1', 2], ['7', 7, 'a'],
+                                      [{"obj": 0}, {"obj": 1}, {"obj": 2}], [{"obj": 3}, 'a', {"tuple": [1, 2]}]]))
     base = draw(st.sampled_from([0, 0, -2, -5, -1, 10 ** 9]))
     scale = draw(st.sampled_from([1, 1, 1, 10 ** 9]))
     return draw(st.lists(one_path(mids_pool, base, scale), min_size=1, max_size=8))
@@ -67,15 +68,29 @@ POOL2 = [
 ]
 
 
+# long paths: (hops, first time, step).  Hop counts, durations and arrival times beyond 256 (ints that are not
+# cached objects) with ties in every criterion: A/B/C tie in length, A/B and D/F in duration, A/F and B/D in arrival
+LONG = [(300, 0, 1), (300, 1, 1), (300, 0, 2), (301, 0, 1), (301, -1, 1), (600, 0, 1)]
+
+
+def long_path(k):
+    hops, t0, step = LONG[k]
+    seq = ['S'] + [1000 * (k + 1) + j for j in range(hops - 1)] + ['T']
+    return [[seq[j], seq[j + 1], t0 + step * j] for j in range(hops)]
+
+
 def exhaustive(tier):
     def cases():
+        for r in (2, 3):
+            for combo in itertools.permutations(range(len(LONG)), r):
+                yield {'long': list(combo), 'as_list': (sum(combo) % 2 == 0)}
         for k in (1, 2, 3, 4):
             for combo in itertools.combinations_with_replacement(range(len(POOL)), k):
                 yield {'paths': [POOL[i] for i in combo], 'as_list': (sum(combo) % 2 == 0)}
         for k in (1, 2, 3):
             for combo in itertools.product(range(len(POOL2)), repeat=k):      # ordered: the input order matters for tie handling
                 yield {'paths': [POOL2[i] for i in combo], 'as_list': (sum(combo) % 2 == 1)}
-    return {'cases': cases(), 'bound': 'every multiset of 1-4 paths from a pool of 12 paths (1819 lists) and every ordered list of 1-3 paths from a second '
+    return {'cases': cases(), 'bound': 'every ordered selection of 2-3 of six paths of 300-600 hops (150 lists; hop counts, durations and arrival times above 256 with ties); every multiset of 1-4 paths from a pool of 12 paths (1819 lists) and every ordered list of 1-3 paths from a second '
             'pool of 12 paths with times/ids -1 and -2, ids 1 and "1", and durations of 2e9 +- 1 (1884 lists)'}
 
 
@@ -85,13 +100,21 @@ def canon(p):
 
 def run_case(case, rec):
     import dynetx.algorithms as al
-    raw = case['paths']
+    from .. import gen
+    if 'long' in case:
+        raw = [long_path(k) for k in case['long']]
+        rec.classify('paths of 300+ hops')
+    else:
+        raw = case['paths']
+    raw = [[[gen.decode_node(h[0]), gen.decode_node(h[1]), h[2]] for h in p] for p in raw]
+    if any(isinstance(x, gen.Opaque) for p in raw for h in p for x in h[:2]):
+        rec.classify('node ids equal only to themselves')
     if case.get('as_list'):
         paths = [[tuple(h) for h in p] for p in raw]
     else:
         paths = [tuple(tuple(h) for h in p) for p in raw]
     inputs = {canon(p) for p in paths}
-    ctx = 'annotate_paths(%r)' % (paths,)
+    ctx = 'annotate_paths(%s)' % (repr(paths) if 'long' not in case else 'long paths %r as (hops, first time, step)' % [LONG[k] for k in case['long']],)
     for p in paths:
         ok, ln = safe(al.path_length, p)
         rec.check('C14.length', ok and ln == len(p), lambda: 'path_length(%r) = %r' % (p, ln))
